@@ -120,8 +120,10 @@ KNOWN_FINDINGS = [
     # frames, Slice(None, None, 3) gives rows 0, 3, 6 and drops 9.  Excluded: LIS conversions whose selection differs from
     # range(first, last + 1, step) with the repository's last(); then only "rows are a prefix of the selection" is checked.
     'lis-frames-from-slice-last',
-    # A negative step raises ExceptionFrameSetPlan ('Negative frame step'), the result says exception.  Excluded: LIS
-    # conversions with a negative step (run; the exception result is accepted).
+    # A negative step raises ExceptionFrameSetPlan ('Negative frame step'), the result says exception; when the selection
+    # takes at most one frame from each data record (9 frames in records of 5 and 4, Slice(None, 0, -6): frames 8, 2) no
+    # step is ever applied inside a record, nothing raises and the rows hold values read from the wrong place (TI -9336.0
+    # where the source has -25.0).  Excluded: LIS conversions with a negative step (run; not judged).
     'lis-negative-step-raises',
     # single_lis_file_to_las starts a new LAS file only at a CONS table: a logical file (header, DFSR, data, trailer)
     # without a CONS table is merged into the previous one and LisLogicalFile.add_index keeps the FIRST log pass, so the
@@ -553,6 +555,11 @@ def convert_and_check(kind, src, path_in, out_dir, sel, subset, reduction, width
         raise Mismatch('the converter raised', exception=repr(err)[:200],
                        at=['%s:%d %s' % (os.path.basename(f.filename), f.lineno, f.name) for f in tb[-3:]])
     written = sorted(os.listdir(out_dir)) if os.path.isdir(out_dir) else []
+    if kind == 'LIS' and 'lis-negative-step-raises' in ACTIVE and sel.step_sign() < 0:
+        # negative steps are not supported by the LIS frame set plan: usually ExceptionFrameSetPlan, but a selection that
+        # takes at most one frame per data record gets through and reads the wrong bytes (see KNOWN_FINDINGS)
+        stats['known:lis-negative-step-raises'] += 1
+        raise Skip('lis-negative-step-raises')
     # ---- classes in which the known symptom is "the result says exception"
     if res.exception:
         def accept(finding):
